@@ -16,7 +16,7 @@ import (
 func init() {
 	register(core.Campaign{
 		Property: "C16",
-		Rule: "one caching Resolver driven through an injected clock (VerifSetClock) against a local DoH server that logs upstream queries with their time: EXHAUSTIVE histories up to length L (quick 3, thorough 5) plus random longer ones over " +
+		Rule: "one caching Resolver driven through an injected clock (VerifSetClock) against a local DoH server that logs upstream queries with their time: EXHAUSTIVE histories up to length L (quick 3, thorough 4) plus random longer ones over " +
 			"{resolve a, resolve b, resolve c, advance 3s, advance 8s, advance 301s, toggle zone data, toggle upstream failure} where a has A TTLs [0,50], b TTL [5], c answers a CNAME (TTL 10) but no record of the asked type, and HTTPS TTLs 7/0; " +
 			"every Resolve compared with the Lean cache model (result, error, upstream queries with times) and with a Go freshness monitor: a lookup answered without an upstream query must be younger than the smallest TTL of the response it came from, " +
 			"failures are never cached, expired entries are re-fetched, unexpired ones are not. A second stream runs 2..16 goroutines doing Resolve/Targets on one Resolver (race detector in the thorough tier). distinct = history.",
@@ -193,7 +193,7 @@ func genC16(env *core.Env, emit func(core.Case)) {
 		emit(core.Case{Name: name, Stream: stream, Ops: ops, Key: name, Sig: name + "/" + outcome, Sample: map[string]any{"history": hist, "outcome": outcome}})
 		env.Count(fmt.Sprintf("%s/len%d", stream, len(hist)))
 	}
-	L := env.Pick(3, 5)
+	L := env.Pick(3, 4)
 	var rec func(cur []string)
 	rec = func(cur []string) {
 		hasResolve := false
@@ -214,7 +214,7 @@ func genC16(env *core.Env, emit func(core.Case)) {
 	}
 	rec(nil)
 	env.Exhaustive(fmt.Sprintf("all histories of length <= %d over the 8-letter alphabet that end in a resolve", L))
-	for i := 0; i < env.Pick(300, 4000); i++ {
+	for i := 0; i < env.Pick(300, 2500); i++ {
 		n := 6 + r.IntN(8)
 		var h []string
 		for j := 0; j < n; j++ {
